@@ -52,7 +52,7 @@ pub fn dispatch(op: &str, ty: &str, args: &[Arg]) -> Option<String> {
     if let "solve" | "det" | "detstack" | "qr" | "norm" = op { return Some(go15(op, args).unwrap_or_else(|| "bad:input".to_string())); }
     match op { "vdot" | "inner" | "outer" | "matmul" | "matmul_pinned" | "dot" | "dot_pinned"
                | "sym_vdot" | "sym_inner" | "sym_outer" | "sym_matmul" | "sym_dot" => {} _ => return None }
-    let r = match ty { "i32" => go::<i32>(op, args), "i64" => go::<i64>(op, args), "f64" | "f64p" => go::<f64>(op, args),
+    let r = match ty { "i32" => go::<i32>(op, args), "i64" => go::<i64>(op, args), "i16" => go::<i16>(op, args), "i8" => go::<i8>(op, args), "f64" | "f64p" => go::<f64>(op, args),
                        "f32" | "f32p" => go::<f32>(op, args), _ => None };
     Some(r.unwrap_or_else(|| "bad:input".to_string()))
 }
